@@ -155,6 +155,8 @@ def plan(prop):
                           ((4, None, 4), (4, 4, 4), (4, 1, 4), (4, 3, 4), (4, 5, 4), (4, 4, 3), (9, 9, 9), (9, 8, 9), (1, 1, 1), (1, 0, 1), (4, 4, 1), (9, 9, 8))):
             obs.append(('vrp-pragmatic', lambda ctx, n=n, m=m, ntt=ntt: po.ob_pragmatic_matrix(ctx, n, m, ntt)))
     if prop == 'C14':
+        for n in ((1, 2) if Q else (1, 2, 3)):
+            obs.append((core, lambda ctx, n=n: co.ob_ctx_from_solution(ctx, n)))
         for k, closed in (((0, True), (0, False), (1, True), (1, False), (2, False)) if Q else ((0, True), (0, False), (1, True), (1, False), (2, True), (2, False), (3, True), (3, False))):
             obs.append((core, lambda ctx, k=k, c=closed: co.ob_tour_step(ctx, k, c)))
         for groups in (((1,), (2,), (2, 1)) if Q else ((1,), (2,), (2, 1), (3,), (2, 2), (1, 1, 1))):
